@@ -38,6 +38,10 @@ class FakeTree:
 
     def convert(self):
         p = self.src
+        if isinstance(p, Profile) and p.tag == "warns":
+            # a valid profile carrying a tag the library does not know, read by an application that runs with warnings as errors
+            from ofxtools.models.base import UnknownTagWarning
+            raise UnknownTagWarning("unknown tag in cached profile")
         if isinstance(p, Profile):
             return Obj(profmsgsrsv1=[Obj(status=Obj(code=0), profrs=Obj(dtprofup=p.date))])
         if p == "UPTODATE":
@@ -92,7 +96,7 @@ def one_call(ctx, client, log, reply):
     client._request_profile = rp
     try:
         r = client.request_profile()
-    except (AssertionError, SyntaxError, OSError, ValueError, AttributeError) as e:
+    except (AssertionError, SyntaxError, OSError, ValueError, AttributeError, Warning) as e:
         return None, sent, type(e).__name__
     return r, sent, None
 
@@ -134,6 +138,28 @@ def h_step(ctx, behaviour):
         ctx.check("a server sending an older profile than the cached one is refused", ctx.implies(d1 < d0, res is None))
     if behaviour == "uptodate" and not has_cache:
         ctx.check("'up to date' without a cached profile is refused", res is None)
+
+
+def h_step_unreadable(ctx, behaviour):
+    """the profile held in the cache is complete and newest, but reading it fails in this process (its conversion raises: an
+    unknown-tag warning under -W error): the call may fail, but the cache must not go back in time and the server must not
+    be asked as if nothing were held"""
+    log = []
+    fs, client = setup(ctx, log)
+    key = cache_key("O", "F")
+    d0 = ctx.datetime("d0", 2000, 2030, utils.UTC)
+    d1 = ctx.datetime("d1", 2000, 2030, utils.UTC)
+    held = Profile("http://s1", d0, "warns")
+    fs.files[key] = held
+    reply = server_reply(ctx, behaviour, d1, 2000, "http://s1")
+    res, sent, exc = one_call(ctx, client, log, reply)
+    ctx.observe("exc", exc)
+    after = fs.files.get(key)
+    ctx.check("the cache is absent or one complete profile", after is None or isinstance(after, Profile))
+    ctx.check("the cache never goes back in time (held profile unreadable in this process)",
+              after is held or (isinstance(after, Profile) and after.date >= d0))
+    if res is None:
+        ctx.check("a call that fails leaves the cache as it was", after is held)
 
 
 # ---------------------------------------------------------------- crash while the cache is being written
@@ -263,7 +289,7 @@ def h_owner_dotted(ctx):
     ctx.check("institutions with different ORG/FID never share a cached profile", res is None and sent == [None])
 
 
-HARNESSES = dict(owner_dotted=h_owner_dotted, step=h_step, crash=h_crash, interleave=h_interleave, owner=h_owner)
+HARNESSES = dict(step_unreadable=h_step_unreadable, owner_dotted=h_owner_dotted, step=h_step, crash=h_crash, interleave=h_interleave, owner=h_owner)
 
 META = dict(
     bounds=dict(step="one request_profile call from an arbitrary valid pre-state (cache absent / complete profile with symbolic date), six server behaviours, symbolic dates and status codes: "
@@ -286,6 +312,7 @@ def instances(tier, seed):
         out.append(dict(name=name, harness=h, fn=HARNESSES[h], params=params, opts=opts))
     for b in BEHAVIOURS:
         mk(f"step[{b}]", "step", dict(behaviour=b))
+        mk(f"step_unreadable[{b}]", "step_unreadable", dict(behaviour=b))
     mk("crash", "crash", {})
     mk("interleave", "interleave", {}, max_paths=100000)
     mk("owner", "owner", {})
